@@ -13,6 +13,8 @@ import LinVerif.Lemmas.C07Lanes
 import LinVerif.Lemmas.C07Grid
 import LinVerif.Generated.C07
 import LinVerif.Generated.C07Loops
+import LinVerif.Lemmas.C07Fanout
+import LinVerif.Generated.C07Fanout
 
 namespace LinVerif.Props.C07
 set_option maxRecDepth 100000
@@ -1200,5 +1202,101 @@ theorem outer_loops_are_code :
     segmentCloseNest = ["range s.families {", "family.Close", "}"] ∧
     familyEvictNest = ["ref.Load", "mutex.Lock", "mutex.Unlock", "mutex.Unlock", "closeFamilyFunc", "segment.EvictFamily"] := by
   decide
+
+/-! ## Round 13: one log, SEVERAL consumer groups — the log's own acknowledged position
+
+`fanOutQueue.Sync` (every WAL GC tick: `partition.IsExpire`) turns the consumer groups' acks into the queue's
+acknowledged sequence: `queue.Get` refuses sequences at or below it, `queue.GC` truncates pages up to it and
+`NewConsumerGroup` lifts a reopened group's ack / consumed position onto it. Model: `Model/C07Fanout.lean`. -/
+
+open LinVerif.C07Fanout in
+/-- full strength (every history of puts, new groups, group acks, Sync ticks in ANY visiting order, restarts):
+the log's acknowledged sequence is at or below EVERY consumer group's acknowledged sequence -/
+theorem queue_ack_le_every_group (evs : List FEv) :
+    ∀ a ∈ (frun FQ.init evs).acks, (frun FQ.init evs).qAck ≤ a ∧ a ≤ (frun FQ.init evs).appended :=
+  (finv_run FQ.init evs finv_init).2.2
+
+open LinVerif.C07Fanout in
+/-- hence the lifting in `NewConsumerGroup` never moves a reopened group: a restart resumes every group exactly
+at its own stored positions (the local replicator then rewinds to ITS ack + 1) -/
+theorem reopen_lift_is_noop (evs : List FEv) (a c : Int) (ha : a ∈ (frun FQ.init evs).acks) (hc : a ≤ c) :
+    reopenGroup (frun FQ.init evs).qAck a c = (a, c) := by
+  have h := (queue_ack_le_every_group evs a ha).1
+  unfold reopenGroup
+  have h1 : ¬ a < (frun FQ.init evs).qAck := by omega
+  have h2 : ¬ c < a := by omega
+  simp [h1, h2]
+
+open LinVerif.C07Fanout in
+/-- Go's map order is irrelevant for the code's shape of the minimum -/
+theorem sync_order_irrelevant (app old : Int) (l1 l2 : List Int) (h : ∀ x, x ∈ l1 ↔ x ∈ l2) :
+    sync app old l1 = sync app old l2 := by
+  have he : l1.isEmpty = l2.isEmpty := by
+    cases l1 with
+    | nil =>
+      cases l2 with
+      | nil => rfl
+      | cons y t => exact absurd ((h y).mpr List.mem_cons_self) (by simp)
+    | cons x t =>
+      cases l2 with
+      | nil => exact absurd ((h x).mp List.mem_cons_self) (by simp)
+      | cons y t2 => rfl
+  unfold sync
+  rw [he, syncMin_order_irrelevant app l1 l2 h]
+
+open LinVerif.C07Fanout in
+/-- the bridge to the node model, full strength (every node history `evs`, every set of other groups, every
+visiting order `l` that contains the local replicator's group, every earlier queue ack at or below it): after
+a Sync tick the LOG's acknowledged position covers no entry above the sequence stored with the flushed data
+(except entries without rows, as in `ack_le_stored`) -/
+theorem queue_ack_le_stored (cfg : Cfg) (hx : cfg.ignoreExact = true) (hc : cfg.atomicAcquire = true)
+    (evs : List Ev) (old : Int) (l : List Int)
+    (hold : old ≤ (run cfg St.init evs).groupAck) (hl : (run cfg St.init evs).groupAck ∈ l)
+    (s : Int) (h0 : 0 ≤ s) (hs : s ≤ sync (run cfg St.init evs).appended old l) :
+    s ≤ ov (run cfg St.init evs).stored ∨ Bad (run cfg St.init evs) s := by
+  have := sync_le_mem (run cfg St.init evs).appended old l _ hl hold
+  exact ack_le_stored cfg hx hc evs s h0 (by omega)
+
+open LinVerif.C07Fanout in
+/-- non-vacuity: local group (0) at -1 before the first flush, follower (1) acknowledged 2: both visiting orders
+leave the log's position at -1; after the local group's first ack (1) the tick moves it to 1, a restart moves nothing -/
+example :
+    (frun FQ.init [.put, .put, .put, .newGroup, .newGroup, .groupAck 1 2, .sync [1, 0]]) = ⟨2, -1, [-1, 2]⟩ ∧
+    (frun FQ.init [.put, .put, .put, .newGroup, .newGroup, .groupAck 1 2, .sync [0, 1]]).qAck = -1 ∧
+    (frun FQ.init [.put, .put, .put, .newGroup, .newGroup, .groupAck 1 2, .sync [0, 1], .groupAck 0 1, .sync [1, 0], .reopen])
+      = ⟨2, 1, [1, 2]⟩ := by decide
+
+open LinVerif.Generated.C07Fanout LinVerif.C07Fanout in
+/-- tie: `Model/C07Fanout.lean` was written against exactly these statements of /repo (regenerated on every run):
+Sync's start value / loop / comparison / guard, SetAcknowledgedSeq's guard, the sequence bounding GC's truncation,
+NewConsumerGroup's lifting -/
+theorem fanout_sync_is_code :
+    fanoutSyncShape = ["fq.lock4map.RLock()", "defer fq.lock4map.RUnlock()", "if len(fq.consumerGroups) == 0", "{", "return", "}",
+      "ackSeq := fq.queue.AppendedSeq()", "for-value fo range fq.consumerGroups", "{", "ts := fo.AcknowledgedSeq()",
+      "if ts < ackSeq", "{", "ackSeq = ts", "}", "}", "if ackSeq >= 0", "{", "fq.queue.SetAcknowledgedSeq(ackSeq)", "}"] ∧
+    setQueueAckShape.take 5 = ["q.rwMutex.Lock()", "defer q.rwMutex.Unlock()",
+      "if seq > q.acknowledgedSeq.Load() && seq <= q.appendedSeq.Load()", "{", "q.acknowledgedSeq.Store(seq)"] ∧
+    queueGcShape.take 5 = ["ackSeq := q.AcknowledgedSeq()", "if ackSeq < 0", "{", "return", "}"] ∧
+    newGroupShape.take 21 = ["consumedSeq := int64(-1)", "ackSeq := int64(-1)", "if hasMeta", "{",
+      "consumedSeq = int64(metaPage.ReadUint64(consumerGroupConsumedSeqOffset))",
+      "ackSeq = int64(metaPage.ReadUint64(consumerGroupAcknowledgedSeqOffset))",
+      "ackOfQueue := q.Queue().AcknowledgedSeq()", "if ackSeq < ackOfQueue", "{", "ackSeq = ackOfQueue", "}",
+      "if consumedSeq < ackSeq", "{", "consumedSeq = ackSeq", "}", "}", "else", "{",
+      "ackSeq = q.Queue().AcknowledgedSeq()", "consumedSeq = ackSeq", "}"] := by
+  decide
+
+namespace Neg
+
+open LinVerif.C07Fanout in
+/-- the "unset sentinel" shape of the minimum (start at -1, `if ackSeq == -1 || ts < ackSeq`) is NOT a lower bound:
+-1 is also the ack of a group that has acknowledged nothing (the local replicator before the family's first flush).
+Visiting it first, the follower's ack 9 becomes the log's position — ahead of the stored sequence (none) —, and a
+reopened local group is lifted to 9: replay starts at 10. The code's shape gives -1 in both orders. -/
+theorem sentinel_min_runs_ahead :
+    syncMinSentinel [-1, 9] = 9 ∧ syncMinSentinel [9, -1] = -1 ∧
+    syncMin 9 [-1, 9] = -1 ∧ syncMin 9 [9, -1] = -1 ∧
+    reopenGroup 9 (-1) 9 = (9, 9) ∧ reopenGroup (sync 9 (-1) [-1, 9]) (-1) 9 = (-1, 9) := by decide
+
+end Neg
 
 end LinVerif.Props.C07
